@@ -288,7 +288,7 @@ impl Prop for C06 {
             return vec![];
         }
         let seed = std::env::var("VERIF_SEED").ok().and_then(|s| s.parse().ok()).unwrap_or(0u64);
-        let c = crate::fuzzrun::Campaign { name: "C06", runs_per_job: 150_000, jobs: 12, timeout_s: 8, seed: seed + 77 };
+        let c = crate::fuzzrun::Campaign { name: "C06", target: "api", hooks: true, runs_per_job: 150_000, jobs: 12, timeout_s: 8, seed: seed + 77 };
         match crate::fuzzrun::run(&c, &[]) {
             Err(e) => {
                 eprintln!("harness error: fuzz campaign: {e}");
